@@ -15,10 +15,11 @@ HOOK_COMMITS = []
 CHECKS = {
     "C01": ("hist", "exploration", "2.C01",
             "reference-model monitor over random call histories under ASan+UBSan",
-            "Runs the real LabeledDirectedGraph<L> (7 label kinds) through tens of thousands of seeded call histories that compose all the mutators, and after EVERY call "
+            "Runs the real LabeledDirectedGraph<L> (8 label kinds, an empty tag struct among them) through tens of thousands of seeded call histories that compose all the mutators, and after EVERY call "
             "compares every structural observer (hasEdge for all pairs, getEdgeNumber, neighbour lists, degrees, adjacency matrix, edges(), vertex iteration) with a "
             "set-of-pairs model; re-adding an existing edge / removing an absent one must not even reorder a list. Every 50th history is a 'scale' history (12-70 vertices, a hub "
-            "collecting 50+ neighbours, hundreds of calls, observed every 8th call) and every 200th a life of 2000-4500 calls on one small object. Exploration is the right level: the property quantifies over unbounded histories, which can only be sampled; "
+            "collecting 50+ neighbours, hundreds of calls, observed every 8th call) and every 200th a life of 2000-4500 calls on one small object. Every third history contains calls the library must reject (out-of-range "
+            "index, shrinking resize), usually followed by the resize that makes the rejected index a vertex - the moment anything such a call left behind becomes observable. Exploration is the right level: the property quantifies over unbounded histories, which can only be sampled; "
             "held means 'held on the histories counted in the evidence'.",
             "Trusted: the 60-line std::map model in harness/hist_simple.cpp, the compiler sanitizers. Histories are <= 80 calls on <= 7 vertices."),
     "C02": ("hist", "exploration", "2.C02",
@@ -41,7 +42,8 @@ CHECKS = {
             "reference-model monitor with an exact (dyadic) and a rounding weight alphabet",
             "Both weighted classes; with dyadic weights k/8 every partial sum is exact so getTotalWeight must equal the model sum exactly; with random doubles a relative "
             "tolerance applies. getEdgeWeight (both modes, both orientations), getWeightMatrix and the structural observers after every call; setEdgeWeight on present and absent "
-            "edges and in descending orientation is counted.",
+            "edges and in descending orientation is counted. One rounding-mode history in seven uses weights above DBL_MAX/2 (the model sum stays a finite double): an "
+            "intermediate value narrower than the long double total shows as inf/NaN. Rejected calls inside histories as in C01.",
             "Trusted: map model, long double arithmetic of the host, sanitizers."),
     "C06": ("hist", "exploration", "2.C06",
             "pairs of histories denoting the same graph; operator== oracle with one-element perturbations",
@@ -68,38 +70,45 @@ CHECKS = {
             "independently built expectations for reversal / conversions / constructors / copies on enumerated graphs",
             "On the C08 graph space with a unique label per edge: getReversedGraph, getDirectedGraph, undirected-from-directed and u->d->u are compared with independently built "
             "graphs (structure, labels, ==); each class is constructed from vector/list/deque/forward_list/set/multiset of edges incl. a repeated entry and compared with adding "
-            "one at a time; copies are mutated to show independence. The weighted edge-list constructors are separate compilation units so that failing to instantiate is a verdict.",
+            "one at a time (also (i,j,NoLabel) containers with a repeated pair, multiplicities of 2^31..UINT_MAX); copies are mutated to show independence; assignment over "
+            "non-empty graphs from lvalues and temporaries and construction from a temporary; a fifth of the source graphs have a past (removed foreign edges, rejected calls, "
+            "removeVertexFromEdgeList, clearEdges + rebuild). The weighted edge-list constructors are separate compilation units so that failing to instantiate is a verdict.",
             "Trusted: model, sanitizers; the 'uninstantiable' verdict rests on the compiler's diagnostics."),
     "C10": ("shape", "exploration", "2.C10",
             "all 2^n vertex subsets of enumerated graphs against the induced-subgraph model",
             "For every enumerated graph (and random ones up to 6-7 vertices) all 2^n subsets S: getSubgraph has size n and exactly the induced edges with labels; "
-            "getSubgraphWithRemap has |S| vertices, its map is a bijection S -> 0..|S|-1 and the pulled-back graph equals the induced subgraph, labels included.",
+            "getSubgraphWithRemap has |S| vertices, its map is a bijection S -> 0..|S|-1 and the pulled-back graph equals the induced subgraph, labels included. Sources "
+            "freshly built, with a past, or carrying forced duplicates (then the set of connected pairs and the labels are held); a double label kind with NaN labels; "
+            "subgraph of a subgraph; rejected calls between the valid ones.",
             "Trusted: model, sanitizers."),
     "C11": ("paths", "exploration", "2.C11",
             "reference BFS and brute-force shortest-path sets on enumerated and tie-rich graphs",
             "Every source (and destination) of every enumerated small graph, random graphs up to 14 vertices and tie-rich families: distances, single predecessor, all-predecessor "
             "sets, returned paths walked edge by edge, and the SET of all shortest paths compared with a brute-force enumeration (no duplicate, none missing). Searches run on a "
-            "scan-counting wrapper type so non-termination is a verdict, not a hang.",
+            "scan-counting wrapper type so non-termination is a verdict, not a hang. A fifth of the graphs carry forced duplicate edges; some have rejected calls in their "
+            "past; ten (thorough forty) shallow random graphs of 65535..100003 vertices are searched from three sources (32-bit index arithmetic past 2^16 vertices).",
             "Trusted: 20-line reference BFS and path enumerator in harness/paths.cpp, sanitizers."),
     "C12": ("paths", "exploration", "2.C12",
             "Bellman-Ford reference over exact and rounding weight alphabets",
             "Dijkstra on both weighted classes over the C11 graph space with weights {0,1,2,3}, dyadic, all-zero (exact comparison) and random doubles (1e-9 relative): distances "
-            "vs Bellman-Ford, source conventions, unreachable conventions, and a consistent predecessor tree (edge exists, dist[v]=dist[p]+w).",
+            "vs Bellman-Ford, source conventions, unreachable conventions, and a consistent predecessor tree (edge exists, dist[v]=dist[p]+w). Ten (thorough forty) graphs of "
+            "65535..131072 vertices with 300 non-isolated vertices spread over the index range (reference: textbook Dijkstra).",
             "Trusted: reference Bellman-Ford, sanitizers."),
     "C13": ("io", "exploration", "2.C13",
             "round trip with independent parse of the written file; grammar-generated well-formed files; name-table oracle",
             "Text writer/loader over random graphs and five label kinds (independent parse of the file, size rule, observer-by-observer and == after resize); files generated from "
-            "the documented grammar (comments anywhere, runs of blanks/tabs, optional final newline); vertex-name loader checked for first-appearance numbering and names[index(x)]==x.",
+            "the documented grammar (comments anywhere, runs of blanks/tabs, optional final newline, one file in five with zero-padded decimal indices); a loaded graph is written "
+            "and loaded again; vertex-name loader checked for first-appearance numbering and names[index(x)]==x.",
             "Trusted: the monitor's own tokenizer/grammar reading of the documented format, sanitizers."),
     "C14": ("io", "exploration", "2.C14",
             "byte-for-byte comparison with an independent little-endian encoder; hand-made files; open-failure enumeration",
             "Binary writer output compared byte for byte with the monitor's own encoding for 11 label kinds, length = edges x record size, deterministic reload, == after resize; "
-            "hand-made files with shuffled records; graphs over byte-pattern-rich vertex indices (35, 255, 256, 65535, 65536...) and files of 255..8193 edges; every writer and "
+            "hand-made files with shuffled records; written graphs that carry forced duplicates (one record per copy, copies back after loading); graphs over byte-pattern-rich vertex indices (35, 255, 256, 65535, 65536...) and files of 255..8193 edges; every writer and "
             "loader on unopenable paths - and with openat failures (EACCES, EMFILE, ...) injected by strace on a perfectly openable file - must throw std::runtime_error.",
             "Trusted: independent encoder; the host is little-endian, so the byte-swap branch is not executed (stated in the evidence)."),
     "C15": ("io", "fault_enumeration", "2.C15",
             "every truncation offset of valid files; malformed-text grammar fuzz; ASan+UBSan in-process, fork isolation, memcheck in the thorough tier",
-            "Crash points are enumerated completely per file: every cut offset 0..length of valid binary files with label sizes 0,1,2,4,8 must throw or return exactly the complete "
+            "Crash points are enumerated completely per file: every cut offset 0..length of valid binary files with label sizes 0,1,2,4,8 - also written and read through user codecs of 2 and 8 bytes per int label - must throw or return exactly the complete "
             "records before the cut. Malformed text from a mutation grammar must return a readable graph or throw a std::exception. Inputs that kill the process are re-run in a "
             "forked child; the truncation cases run a second time under valgrind memcheck (uninitialised reads); an AddressSanitizer allocation-limit abort is re-examined with the "
             "uninstrumented build under an address-space limit, because the property allows std::bad_alloc. Fault enumeration fits: the crash points of a given file are finite and all are tried; files and malformed texts are sampled.",
